@@ -7,7 +7,7 @@ import time
 
 ROOT = os.path.dirname(os.path.dirname(os.path.abspath(__file__)))
 EVIDENCE_DIR = os.path.join(ROOT, 'evidence')
-REPLAY_DIR = os.path.join(ROOT, 'replay')
+REPLAY_DIR = os.path.join(ROOT, 'replay') if not os.environ.get('VERIF_NO_EVIDENCE') else os.path.join('/tmp', 'verif-seed-replay')
 FINDINGS_FILE = os.path.join(ROOT, 'KNOWN_FINDINGS.txt')
 
 
@@ -130,8 +130,9 @@ class Check:
         }
         if self.notes:
             ev['coverage']['notes'] = self.notes
-        with open(os.path.join(EVIDENCE_DIR, '%s.json' % self.prop), 'w') as f:
-            f.write(jdump(ev, indent=1))
+        if not os.environ.get('VERIF_NO_EVIDENCE'):        # (set by tools/seedcheck.py: runs against a patched scratch copy are not evidence)
+            with open(os.path.join(EVIDENCE_DIR, '%s.json' % self.prop), 'w') as f:
+                f.write(jdump(ev, indent=1))
         self.log('done: %d evaluations, %d distinct non-trivial, %d TLC states, %d traces validated, %d violation signatures, %d known findings'
                  % (self.cov['evaluations'], self.cov['distinct_nontrivial'], self.cov['states'],
                     self.cov['traces_validated_against_impl'], len(seen), len(self.known_hits)))
